@@ -81,7 +81,8 @@ pub(crate) fn tombstone_set_merge() {
     let changed = x.merge(SetUnionWithTombstones::new(b.0, b.1));
     let (s, t) = x.into_reveal();
     let after = (s, t);
-    kani::assert(model_eq_after(&a, &b, &after), "C05:merge_is_union_of_tombstones_and_live_minus_tombstones");
+    // C01 / C04 ride on the same fact: (t1 ∪ t2, (s1 ∪ s2) minus (t1 ∪ t2)) is an associative, commutative, idempotent join on well-formed values
+    kani::assert(model_eq_after(&a, &b, &after), "C05+C01+C04:merge_is_union_of_tombstones_and_live_minus_tombstones");
     let mut i = 0;
     while i < s.n { kani::assert(!t.has(s.v[i]), "C05:live_and_tombstones_stay_disjoint_nothing_resurrected"); i += 1; }
     let unchanged = same_set(&s, &a.0) && same_set(&t, &a.1);
@@ -126,8 +127,11 @@ pub(crate) fn tombstone_set_lattice_from() {
     let a = sym_ts();
     let f: Ts = LatticeFrom::lattice_from(SetUnionWithTombstones::new(a.0, a.1));
     let (live, tomb) = f.into_reveal();
-    kani::assert(same_set(&live, &a.0), "C04:tombstone_set_lattice_from_keeps_live_items");
-    kani::assert(same_set(&tomb, &a.1), "C04:tombstone_set_lattice_from_keeps_tombstones");
+    kani::assert(same_set(&live, &a.0), "C04+C01:tombstone_set_lattice_from_keeps_live_items");
+    kani::assert(same_set(&tomb, &a.1), "C04+C01:tombstone_set_lattice_from_keeps_tombstones");
+    // container lattices (MapUnion on a new key, VecUnion extension, WithBot's None arm, DomPair's dominated arm) adopt a value through
+    // lattice_from: their merge is ACI only if lattice_from preserves the value
+
 }
 
 // tombstone MAP variant: keys over a 4-value domain, values Max<u8> (0 = bottom = invisible)
